@@ -102,6 +102,10 @@ OpsManPutBad ==
   \cup UNION { {ManPutOp(r, [k |-> "raw", v |-> v], c, M(c).mt, TRUE, "") :
                   r \in GR, v \in {"sha256:abcd", "-leading", "md5:d41d8cd98f00b204e9800998ecf8427e"}} : c \in ManCids }
   \cup UNION { {ManPutOp(r, TagRef(t), c, M(c).mt, TRUE, d) : r \in GR, t \in Tags, d \in Digs \ DigsOfC(c)} : c \in ManCids }
+\* the path names the digest of something else while ?digest= is right, and the other way round (a family of its own)
+FManPutDQ ==
+  UNION { {ManPutOp(r, DigRef(Dig("sha256", c2)), c, M(c).mt, TRUE, dp) : r \in GR, c2 \in ManCids \ {c}, dp \in DigsOfC(c)} : c \in ManCids }
+  \cup UNION { {ManPutOp(r, DigRef(d), c, M(c).mt, TRUE, Dig("sha256", c2)) : r \in GR, d \in DigsOfC(c), c2 \in ManCids \ {c}} : c \in ManCids }
 \* ... and pushes whose references are not (all) present in this repository
 FManPutBad == {o \in OpsManPutBad : (IsManC(o.body) /\ o.ctype = M(o.body).mt) => TRUE}
 FManPutMissing == {o \in OpsManPutGood : ~(Refs(o.body) \subseteq blob[o.repo])}
@@ -208,6 +212,7 @@ FamOps(f) ==
     [] f = "pushmanblob" -> {o \in FPushManAsBlob : G1b(o.repo, o.dig)}
     [] f = "manput"   -> FManPut
     [] f = "manputbad" -> FManPutBad
+    [] f = "manputdq" -> {o \in FManPutDQ : Refs(o.body) \subseteq blob[o.repo]}
     [] f = "manputdig" -> {o \in FManPut : o.ref.k = "dig"}
     \* (GC scenarios only) the blob of an indexed manifest is deleted through the blob API: an index entry without content
     \* (G2: not the blob of an index whose children would be orphaned when the collection prunes its entry: finding child-orphan)
@@ -264,7 +269,7 @@ Weights ==
                              "mangetchild", "mangetchild", "manget", "manget", "blobget", "mandel", "restart", "repushblob">>
     [] Profile = "tags" -> <<"pushblob", "pushblob", "manput", "manput", "manput", "manput", "mandel", "mandel",
                              "tagslist", "tagslist", "manget", "restart", "mandelmiss">>
-    [] Profile = "manput" -> <<"pushblob", "pushblob", "manput", "manput", "manputbad", "manputbad", "manputbad",
+    [] Profile = "manput" -> <<"pushblob", "pushblob", "manput", "manput", "manputbad", "manputbad", "manputbad", "manputdq", "manputdq",
                                "manputmiss", "manputmiss", "manputmiss", "mandel", "mandel", "blobdel", "blobdel", "pushmanblob">>
     [] Profile = "refs" -> <<"pushblob", "pushblob", "manput", "manput", "manput", "manput", "mandel", "mandel", "restart">>
     [] Profile = "gc" -> <<"pushblob", "pushblob", "repushblob", "manput", "manput", "manput", "manput", "manput", "mandel", "mandel",
@@ -288,7 +293,7 @@ Weights ==
     [] Profile = "sessx" -> <<"uppostnew", "uppostnew", "uppostnew", "uppost", "uppatch", "uppatch", "uppatch", "upput", "upget", "upget",
                               "updel", "sessbad", "tick", "tick", "tick", "restart", "pushblob">>
     [] Profile = "upload" -> <<"pushblob", "repushblob", "uppost", "uppost", "uppatch", "uppatch", "uppatch", "upput", "upput", "sessbad",
-                               "putwrong", "putwrongalg", "putwrongalg", "manput", "manput", "manputbad", "blobget", "manget", "blobdel">>
+                               "putwrong", "putwrongalg", "putwrongalg", "manput", "manput", "manputbad", "manputdq", "manputdq", "manputdq", "blobget", "manget", "blobdel">>
     [] OTHER -> <<"pushblob", "manput", "mandel">>
 
 Cands(f) == FamOps(f)
